@@ -371,6 +371,20 @@ theorem mRun_exact {c : Cfg β} (m : Mon β) (hd : c.dflt = m.zero) (hz : dtorZe
       have hc1 : s1.tidEnd ≤ tidCap := Nat.le_trans (mRun_tidEnd_mono m h) hcap
       exact ih (step_inv hz hI h1 hc1) (mstep_rinv m hd hz hI hR h1 hc1) h hcap
 
+/-- a monoid-counter history is a history of the generic family -/
+theorem mRun_run {c : Cfg β} (m : Mon β) {es : List (MEv β)} :
+    ∀ {s s' : Fam β} {r r' : Nat → Option β}, mRun c m s r es = some (s', r') →
+      run c s (es.map (fun e => e.toEv m)) = some s' := by
+  induction es with
+  | nil => intro s s' r r' h; cases h; rfl
+  | cons e es ih =>
+    intro s s' r r' h
+    simp only [mRun] at h
+    simp only [List.map_cons, run]
+    cases h1 : step c s (e.toEv m) with
+    | none => rw [h1] at h; cases h
+    | some s1 => rw [h1] at h; exact ih h
+
 theorem init_rinv (c : Cfg β) (m : Mon β) : RInv c m (Fam.init c) (fun _ => none) := by
   intro h; rfl
 
